@@ -77,9 +77,10 @@ static uint64_t dbits(double d) { uint64_t u; std::memcpy(&u, &d, 8); return u; 
 // workload generation
 static const int64_t PHI_RAW = 205887;   // the library's pi constant; only used to aim arguments, never as an oracle
 
-enum AliasKind { AL_NONE, AL_SAME, AL_LOW32, AL_LOW16, AL_LOW48, AL_HIGH, AL_FOLD, AL_BIT, AL_NEG, AL_PI, AL_2PI, AL_N };
+enum AliasKind { AL_NONE, AL_SAME, AL_LOW32, AL_LOW16, AL_LOW48, AL_HIGH, AL_FOLD, AL_BIT, AL_NEG, AL_PI, AL_2PI, AL_HIGH8, AL_LOW24, AL_NEXT, AL_N };
 static const char * alias_name[AL_N] = {"fresh", "identical", "same_low32", "same_low16", "same_low48", "same_high_bits",
-                                        "xor_fold_equal", "one_bit_flip", "negated", "plus_k_pi", "plus_k_2pi"};
+                                        "xor_fold_equal", "one_bit_flip", "negated", "plus_k_pi", "plus_k_2pi",
+                                        "same_but_low8", "same_low24", "plus_minus_k_raw"};
 
 static uint64_t fresh_fx(Rng & r)
   {
@@ -116,6 +117,9 @@ static uint64_t alias_fx(Rng & r, uint64_t v, AliasKind & kind)
     case AL_NEG: return static_cast<uint64_t>(-static_cast<int64_t>(v));
     case AL_PI: return up ? v + k * PHI_RAW : v - k * PHI_RAW;
     case AL_2PI: return up ? v + k * 2 * PHI_RAW : v - k * 2 * PHI_RAW;
+    case AL_HIGH8: return (v & ~0xffull) | r.below(256);
+    case AL_LOW24: return up ? v + (k << 24) : v - (k << 24);
+    case AL_NEXT: return up ? v + k : v - k;
     default: return v;
     }
   }
@@ -205,6 +209,11 @@ static Plan gen_plan(uint64_t seed, int min_clients)
   size_t n = 6 + r.below(40);
   // swarm: a few focus operations per run so the same entry point is hit repeatedly
   size_t nfocus = 1 + r.below(4);
+  // a few runs are long and narrow: hundreds of calls to one or two entry points, mostly with fresh arguments, so that
+  // small caches fill, evict and wrap, and call counters get somewhere
+  bool long_run = r.below(100) < 3;
+  if (long_run) { n = 150 + r.below(1100); nfocus = 1 + r.below(2); }
+  unsigned alias_pct = long_run ? 35 : 60, focus_pct = long_run ? 97 : 85;
   std::vector<uint16_t> focus;
   for (size_t i = 0; i < nfocus; ++i)
     {
@@ -222,7 +231,7 @@ static Plan gen_plan(uint64_t seed, int min_clients)
     {
     Item it{};
     it.client = static_cast<uint8_t>(r.below(p.clients));
-    it.op = r.chance(85) ? focus[r.below(focus.size())] : static_cast<uint16_t>(r.below(g_ops.size()));
+    it.op = r.chance(focus_pct) ? focus[r.below(focus.size())] : static_cast<uint16_t>(r.below(g_ops.size()));
     const Op & op = g_ops[it.op];
     it.alias = AL_NONE; it.alias_of = -1;
     for (int attempt = 0; attempt < 20; ++attempt)
@@ -230,10 +239,10 @@ static Plan gen_plan(uint64_t seed, int min_clients)
       it.alias = AL_NONE; it.alias_of = -1;
       // earlier call whose first argument we alias: same op preferred, else any op with the same argument kind
       int src = -1;
-      if (i > 0 && r.chance(60))
+      if (i > 0 && r.chance(alias_pct))
         {
         std::vector<int> same, kind;
-        for (size_t j = 0; j < i; ++j)
+        for (size_t j = (i > 64 && r.chance(50)) ? i - 64 : 0; j < i; ++j)
           {
           if (p.items[j].op == it.op) same.push_back(static_cast<int>(j));
           else if (g_ops[p.items[j].op].ka == op.ka) kind.push_back(static_cast<int>(j));
